@@ -6,12 +6,12 @@ import e2e
 from core import run_impl, run_model, Family, cmp_tree
 
 
-def make(pid, salt, quick_n, judge, extra_fams=None, max_periods=3, features=None):
+def make(pid, salt, quick_n, judge, extra_fams=None, max_periods=3, features=None, on_grid_prob=0.3):
     def run(tier, seed):
         rng = random.Random(seed * 7919 + salt)
         k = 1 if tier == "quick" else 15
         fam, out = e2e.fam_simulate(rng, quick_n * k, judge=judge, max_periods=max_periods if tier == "quick" else 4,
-                                    name=f"simulate_vs_spec[{pid}]", features=features)
+                                    name=f"simulate_vs_spec[{pid}]", features=features, on_grid_prob=on_grid_prob)
         fams = [fam]
         for f in (extra_fams or []):
             fams.append(f(rng, tier))
